@@ -4621,7 +4621,9 @@ class PyCdlib:
             raise pycdlibexception.PyCdlibInvalidInput('Cannot modify a directory with modify_file_in_place')
 
         if child.inode is None:
-            raise pycdlibexception.PyCdlibInternalError('Child file found without inode')
+            # Some records have no data of their own on the ISO: the El Torito
+            # Boot Catalog is generated by us, and symlinks have no contents.
+            raise pycdlibexception.PyCdlibInvalidInput('Cannot modify a file that has no data of its own (such as the El Torito Boot Catalog) with modify_file_in_place')
 
         child.inode.update_fp(fp, length)
 
